@@ -308,10 +308,26 @@ func (t *Trial) CheckViews(f *Final) string {
 	for _, e := range f.Entries {
 		total += uint64(e.Weight)
 	}
-	if t.Cfg.SizeKind == 2 && f.WeightedSize != total {
-		return fmt.Sprintf("WeightedSize()=%d but the entries present weigh %d", f.WeightedSize, total)
+	// WeightedSize and EstimatedSize count entries that expired and were not swept yet, the iterators skip them:
+	// with such nodes in the table the reference is the table itself.
+	expired := 0
+	var tableTotal uint64
+	if t.Clock != nil {
+		now := t.Clock.now.Load()
+		for _, n := range f.Snap.Table {
+			tableTotal += uint64(n.Weight)
+			if n.ExpiresAt <= now {
+				expired++
+			}
+		}
 	}
-	if f.EstimatedSize != len(f.AllKV) {
+	if expired > 0 {
+		total = tableTotal
+	}
+	if t.Cfg.SizeKind == 2 && f.WeightedSize != total {
+		return fmt.Sprintf("WeightedSize()=%d but the entries present weigh %d (%d of them expired and unswept)", f.WeightedSize, total, expired)
+	}
+	if expired == 0 && f.EstimatedSize != len(f.AllKV) {
 		return fmt.Sprintf("EstimatedSize()=%d but iteration yields %d entries", f.EstimatedSize, len(f.AllKV))
 	}
 	seen := map[int]bool{}
